@@ -131,7 +131,8 @@ def run(ctx, prefixes, what):
             cases.append({"config": cfg, "hooks": cfgs[cfg], "steps": b})
     stats = replay(ctx, cases, prefixes)
     ctx.log("replayed %d behaviours on the real operator (%s): %s" % (len(cases), what, stats))
-    ctx.cov["traces_validated_against_impl"] = len(cases)
+    nlog = oplog(ctx, ctx.pid) if ctx.pid in ("C03", "C04") else 0
+    ctx.cov["traces_validated_against_impl"] = len(cases) + nlog
     ctx.cov["evaluations"] = len(cases)
     ctx.cov["distinct_nontrivial"] = len({c["config"] + json.dumps([s["act"] for s in c["steps"]]) for c in cases})
     ctx.cov["replay"] = stats
@@ -156,6 +157,39 @@ def e2e(ctx, prefixes, configs, per, depth=50, sdafter=9999):
         raise Infra("no operator-level behaviours")
     stats = replay(ctx, cases, prefixes)
     return len(cases), stats
+
+
+WHY_PROP = {"overlap": "C03", "out-of-order-lost-or-duplicated": "C07", "retry-different": "C04", "lost": "C01",
+            "end-without-start": "C03", "still-running": "C04"}
+
+
+def oplog(ctx, pid):
+    """(T) free-running executions of the real operator validated by TLC against spec/Operator/OperatorLog.tla."""
+    binary = vlib.go_build(ctx, "op")
+    hookbin = vlib.go_build(ctx, "hookbin")
+    runs = ctx.pick(40, 400)
+    tr = ctx.path("oplog.ndjson")
+    rr = vlib.run_bin(ctx, binary, ["stress", "-out", tr, "-hookbin", hookbin, "-n", str(runs), "-seed", str(ctx.seed)], timeout=1800)
+    if rr["rc"] != 0:
+        raise Infra("op stress failed: " + rr["stderr"][-1500:])
+    events = vlib.read_jsonl(tr)
+    t = vlib.tlc(ctx, SPEC, "OperatorLog", "Log.cfg", mode="mc", workers=1, timeout=900, files={"oplog.ndjson": tr})
+    if t["violated"]:
+        et = tlaparse.parse_error_trace(t["out"])
+        last = et[-1][1] if et else {}
+        l, why = last.get("l", 0), str(last.get("why", "?"))
+        prop = WHY_PROP.get(why, "DIV")
+        detail = "free-running operator: %s at record %d: %s; pending %s" % (why, l - 1, json.dumps(events[l - 2] if 2 <= l <= len(events) + 1 else {})[:400], json.dumps(last.get("pending"))[:300])
+        if prop == pid or (pid == "C01" and why == "out-of-order-lost-or-duplicated"):
+            ctx.fail("%s/oplog/%s" % (pid, why), detail, {"trace_window": events[max(0, l - 15):l]})
+        else:
+            ctx.notes.append("DIVERGENCE %s/oplog/%s: %s" % (prop, why, detail[:300]))
+    n_exec = sum(1 for e in events if e["e"] == "start")
+    n_obj = sum(1 for e in events if e["e"] == "ev")
+    ctx.log("free-running operator: %d runs, %d objects, %d hook executions; log validated by TLC against OperatorLog: %s" % (runs, n_obj, n_exec, t["violated"] or "accepted"))
+    ctx.cov["oplog_runs"] = runs
+    ctx.cov["oplog_records"] = len(events)
+    return runs
 
 
 def check_c03(ctx):
@@ -247,7 +281,8 @@ def check_c07(ctx):
             cases.append({"config": cfg, "hooks": cfgs[cfg], "steps": b})
     stats = replay(ctx, cases, ("C07/",))
     ctx.log("end to end: %d operator behaviours replayed: %s" % (len(cases), stats))
-    ctx.cov["traces_validated_against_impl"] = total + len(cases)
+    nlog = oplog(ctx, "C07")
+    ctx.cov["traces_validated_against_impl"] = total + len(cases) + nlog
     ctx.cov["evaluations"] = total + len(cases)
     ctx.cov["distinct_nontrivial"] = total
     ctx.cov["replay"] = stats
